@@ -235,7 +235,10 @@ func RunCLI(prop, tier, rule string) int {
 			// re-execute once before reporting
 			again := &job{key: j.key, s: j.s, bytes: j.bytes, ridx: j.ridx}
 			idx := r.L - 1
-			if err := run(again, 900000+idx); err == nil && again.obs != nil &&
+			// (a run that hangs may end as a timeout one time and as a crash -- the Go stack is exhausted -- the next: both
+			// are the same violation)
+			abnormal := func(o *cli.Obs) bool { return o.TimedOut || o.Panic }
+			if err := run(again, 900000+idx); err == nil && again.obs != nil && !(abnormal(again.obs) && abnormal(j.obs)) &&
 				(again.obs.Exit != j.obs.Exit || again.obs.Stdout != j.obs.Stdout || len(again.obs.Created) != len(j.obs.Created)) {
 				return infra(prop, fmt.Errorf("violation did not reproduce on re-execution (scenario %s)", j.key))
 			}
